@@ -14,7 +14,7 @@ CLAIMED = {
               "emit_code, parse_and_bind, every wasm_bindgen export) no call that exposes hash-iteration order, reads "
               "clock/environment/pid/file system/RNG/addresses, or touches process-lifetime state in beff-core is "
               "reachable in the resolved call graph. Every hash-container call is classified (unknown API fails closed). "
-              "This is the right level because determinism is a statement about which APIs can influence a value on any path. Also C10.4 (= C14.7): cache-only module lookups never take a key out of an import/export table (what the session has loaded is an ambient input); C10.5 (= C14.8): parsed modules are not changed by compiling them; C10.6: twin accessors agree."),
+              "This is the right level because determinism is a statement about which APIs can influence a value on any path. Also C10.4 (= C14.7): cache-only module lookups never take a key out of an import/export table (what the session has loaded is an ambient input); C10.5 (= C14.8): parsed modules are not changed by compiling them; C10.6: twin accessors agree. C10.2 counts randomly keyed hashers (RandomState::new, hash_one) as ambient inputs."),
         note=("Trusted: rustc's MIR and trait resolution; the call-graph over-approximation (closures, fn pointers, callbacks "
               "through local impls of foreign traits); dependency crates (swc, serde_json, std) are assumed deterministic and "
               "are not analysed."),
@@ -45,7 +45,7 @@ CLAIMED["C04"] = dict(
           "an swc AST enum or a binding-table enum is a panic; (3) every recursive call that passes a value obtained from a "
           "user-keyed table lookup lies only on cycles that pass a visited/memo mark; (4) every condition-driven loop writes a "
           "loop-carried dependency of its exit condition on every back-edge path. The rules found 3 panics, 1 hang (all repaired by "
-          "fix: commits) and 41 reachable sites that abort the process on witness inputs (known findings, each reproduced). Also: a successful result loads against the client runtime (C04.5 = the C01 constructor-table and regex-escaping rules). C04.3a also requires that the structure owning a visited set is not re-created inside the recursion it cuts."),
+          "fix: commits) and 41 reachable sites that abort the process on witness inputs (known findings, each reproduced). Also: a successful result loads against the client runtime (C04.5 = the C01 constructor-table and regex-escaping rules). C04.3a also requires that the structure owning a visited set is not re-created inside the recursion it cuts. Also C04.6: nothing in the recursion of the converter calls a semantic decision while atom slots hold placeholders."),
     note=("Trusted: rustc MIR/HIR, the call-graph over-approximation, the reviewed census and two exception tables. Not decided: "
           "promptness, diagnostics' line/column ranges lying inside the file, swc's own parser; dependency crates are not analysed. "
           "The census rule is deliberately conservative: a new panic/unwrap/index site fails until reviewed."),
@@ -77,7 +77,7 @@ CLAIMED["C05"] = dict(
           "touches that family's tables/accessors/constructors (this rule found the named-tuple memo bug, repaired by a fix: "
           "commit); co-inductive memo typestate of both emptiness entry points (lookup first, Undefined read as IsEmpty, "
           "in-progress mark dominates the recursive computation, same key updated afterwards); polarity of the BDD path walk "
-          "and the conjunction table of and_empty_status (truth table). Added later: in the recursive emptiness procedures no owned scratch value defined before a loop is written in the loop and handed to the recursive call without being re-created or restored per iteration (C05.6, with canary controls). Also C05.inv: the C06 arm rules are re-run, since a wrong difference flips assignability. Also C05.7: twin procedures of the engine agree on their abstract signatures. Also C05.8: a set-operation result that is stored into the fragment handed to the recursive emptiness check is stored on every path (a move into a closure does not count)."),
+          "and the conjunction table of and_empty_status (truth table). Added later: in the recursive emptiness procedures no owned scratch value defined before a loop is written in the loop and handed to the recursive call without being re-created or restored per iteration (C05.6, with canary controls). Also C05.inv: the C06 arm rules are re-run, since a wrong difference flips assignability. Also C05.7: twin procedures of the engine agree on their abstract signatures. Also C05.8: a set-operation result that is stored into the fragment handed to the recursive emptiness check is stored on every path (a move into a closure does not count). Also C05.9: `inhabited` is answered only where no negative is left or where a call on the REMAINING negatives answered it (2 known findings: the list and the Map procedures consult the first negative only; witnesses q_list_union_subtype, q_map_union_subtype)."),
     note=("Trusted: rustc typed HIR/MIR, the family naming scheme. Not decided: the emptiness procedures themselves "
           "(Frisch's Phi' on lists, exact-vs-open mapping difference, index signatures) - value-level correctness of all "
           "atom tables has no sound static argument in reach; relies on C06 for the set operations."),
@@ -92,7 +92,7 @@ CLAIMED["C07"] = dict(
           "top level (1 known finding: Exclude<number,1> -> Not<1> -> printer panic); the generated-name counter is only "
           "incremented, threaded by &mut from the frontend, and every helper definition returned is inserted with its result "
           "propagated; tag / proper-subtype / atom dispatch has no value-returning catch-all; maybe_not is always called with "
-          "`!allowed` of the enclosing arm and Not wraps exactly the negative atoms of a clause. Also C07.6: an atom fetched from one of the four atom tables only reaches materialisers that build that family's form (interprocedural flow through helper parameters). Also C07.7: twin materialisers agree. Also C07.8: a result built from one element of a sequence payload (first / last / literal index) in the materialiser, the IR or the printer is justified by a length test or by a use of the rest of the sequence (found and guards fix 6d011bc: multi-item template literals were materialised as their first item)."),
+          "`!allowed` of the enclosing arm and Not wraps exactly the negative atoms of a clause. Also C07.6: an atom fetched from one of the four atom tables only reaches materialisers that build that family's form (interprocedural flow through helper parameters). Also C07.7: twin materialisers agree. Also C07.8: a result built from one element of a sequence payload (first / last / literal index) in the materialiser, the IR or the printer is justified by a length test or by a use of the rest of the sequence (found and guards fix 6d011bc: multi-item template literals were materialised as their first item). Also C07.9: functions that enumerate the values of an enum (TypedArrayKind::all, SubTypeTag::all) list every variant once."),
     note=("Trusted: rustc typed HIR/MIR. Not decided: that the materialised Runtype denotes the same value set as the semantic "
           "type (keyof / indexed-access projections, union-of-complements), which quantifies over all values."),
     design="DESIGN.md section 3, C07",
@@ -107,7 +107,7 @@ CLAIMED["C08"] = dict(
           "in ordered sets/maps (member and property order unobservable); every arm of the Printable*Key converters binds and "
           "uses every field of its variant and targets the same-named key variant (hoisting cannot merge types that differ); "
           "no hash()/hash256() of the runtime family reads metadata or feeds a type name to the writer, and every key iteration "
-          "in them is over a sorted copy. Added later: all_of merges on equal stored values only (C08.5); binary merge/selection functions over set-ordered members return a payload that reaches both operands or neither (C08.6); digest-context tables are not keyed by names (C08.4/C13.4). Also C08.8 (= C01.8: a type parameter resolves to its innermost binding, so renaming / inlining generic wrappers is meaning-preserving)."),
+          "in them is over a sorted copy. Added later: all_of merges on equal stored values only (C08.5); binary merge/selection functions over set-ordered members return a payload that reaches both operands or neither (C08.6); digest-context tables are not keyed by names (C08.4/C13.4). Also C08.8 (= C01.8: a type parameter resolves to its innermost binding, so renaming / inlining generic wrappers is meaning-preserving). Also C08.9: a value merged from the existing entry of a map is never stored with entry(..).or_insert(..)."),
     note=("Trusted: rustc MIR/HIR/ADT facts, swc AST. Not decided: equality of behaviour across spellings (which optimisation "
           "fires for which shape) - a relational, value-level statement."),
     design="DESIGN.md section 3, C08",
@@ -121,7 +121,7 @@ CLAIMED["C09"] = dict(
           "locals up by the original name; `export {A as B} from` looks A up in the other module and registers B; every kind "
           "of import that an export list can mention registers an export (this rule found the dropped default re-export, "
           "repaired by a fix: commit); the identity types of named types derive Eq/Ord/Hash over all fields incl. the file; "
-          "the lossy file-name mangling has no collision check (1 known finding, reproduced). Also C09.7: the file suffix of a disambiguated name is cut at a min-reduction over all same-named files. Also C09.8: the expression of another module's default export is handed on with the anchor of that export record. Also C09.9: the type-side and value-side twins of name resolution agree on their abstract signatures (reviewed differences tabled). Also C09.10 (a lookup that follows `export *` re-enters the complete lookup of the target module) and C09.11 (in import('m').Q<Args> the arguments are lowered in the importing file and Q never visits the type-parameter stack - guards fix 009be55)."),
+          "the lossy name mangling is followed by a collision check on the printed names (C09.4; was violated, repaired by fix d02c186). Also C09.7: the file suffix of a disambiguated name is cut at a min-reduction over all same-named files. Also C09.8: the expression of another module's default export is handed on with the anchor of that export record. Also C09.9: the type-side and value-side twins of name resolution agree on their abstract signatures (reviewed differences tabled). Also C09.10 (a lookup that follows `export *` re-enters the complete lookup of the target module) and C09.11 (in import('m').Q<Args> the arguments are lowered in the importing file and Q never visits the type-parameter stack - guards fix 009be55). Also C09.12: a declaration is recorded in one table of the module locals. C09.4 (printed names of distinct types are checked for collisions before they key the emitted table) was a known finding and is discharged since fix d02c186."),
     note=("Trusted: rustc typed HIR and impl facts. Not decided: equality with the single-file result for all layouts "
           "(relational over programs); the walkers' resolution order; .d.ts/.tsx handling."),
     design="DESIGN.md section 3, C09",
@@ -136,7 +136,7 @@ CLAIMED["C13"] = dict(
           "ch/maj have their truth tables; schedule recurrence, T1/T2, state rotation, feed-forward, padding byte, threshold "
           "(> 56), big-endian length field and word load. Per class: every structural constructor field is read by hash256(), "
           "tags are pairwise distinct, every collection loop is length-prefixed, optional parts are tagged on both branches, "
-          "no digest reads metadata/names or iterates unsorted keys, cycle bookkeeping is paired. Added later: module constants are resolved before the arithmetic is compared; the in-progress table of the digest context is keyed by the referenced validator, never by a name (cycle-table-key). Also C13.5: hash()/hash256() read every constructor argument they read on the reviewed tree. Also C13.6: the stream position hash256 derives back-reference ids from advances by the length of every write; C13.7 (no fixed-size prefix)."),
+          "no digest reads metadata/names or iterates unsorted keys, cycle bookkeeping is paired. Added later: module constants are resolved before the arithmetic is compared; the in-progress table of the digest context is keyed by the referenced validator, never by a name (cycle-table-key). Also C13.5: hash()/hash256() read every constructor argument they read on the reviewed tree. Also C13.6: the stream position hash256 derives back-reference ids from advances by the length of every write; C13.7 (no fixed-size prefix). Also C13.8: no bounded-destination UTF-8 encoding (encodeInto) in hash.ts."),
     note=("Trusted: swc AST; the re-derivation of FIPS 180-4 in rules/c13.py; the 4-entry derived-field table. Not decided: "
           "collision-freedom beyond coverage+framing, buffer arithmetic across block boundaries (boundary-value behaviour), "
           "TextEncoder."),
@@ -151,7 +151,7 @@ CLAIMED["C16"] = dict(
           "markDefinitionInProgress(n) is followed by storeDefinition(n) inside a try whose catch/finally clears the mark "
           "(roles of mark/store/clear are derived from the context class); store sites sit under the not-present-and-not-in-"
           "progress guard for the same name; the definition table has exactly one writer; exportDefinitions copies; the "
-          "stored body is <target>.schema(ctx). The rule found the leaked mark on exceptions (repaired by a fix: commit). Added later: schema printing writes no instance state (C16.4); methods of the context that hand out a stored definition body are not reachable from schema() (C16.5). Also C16.6: every path that stores the definition of a named type consults the schema override."),
+          "stored body is <target>.schema(ctx). The rule found the leaked mark on exceptions (repaired by a fix: commit). Added later: schema printing writes no instance state (C16.4); methods of the context that hand out a stored definition body are not reachable from schema() (C16.5). Also C16.6: every path that stores the definition of a named type consults the schema override. Also C16.7: a structural hash taken while printing schemas starts from a fresh hash context."),
     note=("Trusted: swc AST. Not decided: equality with a fresh context for synthetic discriminated-variant names (they embed "
           "a 32-bit hash: collisions are value-level); JS exceptions other than those raised by calls."),
     design="DESIGN.md section 3, C16",
@@ -165,7 +165,7 @@ CLAIMED["C02"] = dict(
           "every key of every schema object literal is a Draft 2020-12 keyword (plus discriminator) and every literal or "
           "field-typed `type` lies in the seven JSON Schema type names; prefixItems comes with minItems and pattern is a RegExp "
           "source (both were violated and repaired by fix: commits); every getRef(n) is preceded by the ensure-definition "
-          "sequence for n. Added later: index-signature schemas keep both key and value constraint (C02.5); the allOf merge takes every member's whole `required` list (C02.6). Also C02.7-C02.10 and the schema-array clause of C02.3: facade contexts are created per call; dictionaries keyed by type names have no prototype; no computed String.replace pattern; a lossy name sanitiser keeps a collision record; anyOf / prefixItems are never printed empty (2 known findings). Also C02.11: schema() reads every constructor argument it read on the reviewed tree. Also C02.12 (the schema table of a discriminated union narrows each variant to its key - guards fix efd9347: oneOf branches overlapped for multi-literal variants), C02.13 (no fixed-size prefix) and C02.14 (= C16.4: schema printing keeps no state on the validator instances)."),
+          "sequence for n. Added later: index-signature schemas keep both key and value constraint (C02.5); the allOf merge takes every member's whole `required` list (C02.6). Also C02.7-C02.10 and the schema-array clause of C02.3: facade contexts are created per call; dictionaries keyed by type names have no prototype; no computed String.replace pattern; a lossy name sanitiser keeps a collision record; anyOf / prefixItems are never printed empty (2 known findings). Also C02.11: schema() reads every constructor argument it read on the reviewed tree. Also C02.12 (the schema table of a discriminated union narrows each variant to its key - guards fix efd9347: oneOf branches overlapped for multi-literal variants), C02.13 (no fixed-size prefix) and C02.14 (= C16.4: schema printing keeps no state on the validator instances). Also C02.15: the canonical rendering used to compare schemas keeps the order of arrays. Also C02.16: local dictionaries read by data-derived keys have no prototype (found and guards fix 98a32e0)."),
     note=("Trusted: swc AST, the keyword list. Not decided: agreement on documents (required vs optional through "
           "removeNullUnionBranch, allOf merge, index signatures) - value-level over all documents."),
     design="DESIGN.md section 3, C02",
@@ -181,7 +181,7 @@ CLAIMED["C03"] = dict(
           "in any validate / parseAfterValidation / reportDecodeError or in the error helpers; explicit throws are the three "
           "reviewed post-validation ones; no assignment/delete/mutator call is rooted at an input-derived object; the two "
           "objectKeyOrder branches use the same membership test. The rules found three defect families (10 sites), all "
-          "repaired by fix: commits. Added later: results of a child's parseAfterValidation count as input-derived (opaque leaves and `any` hand the input back) and Object.assign/defineProperty/freeze count as writes to their first argument. Also C03.7: index-signature validators are applied to undeclared keys only. Also C03.8: parseAfterValidation() reads every constructor argument it read on the reviewed tree. Also C03.9: for every value validate() accepts without consulting the wrapped member (null / undefined of an optional field) parseAfterValidation does not delegate to that member; C03.10 (no fixed-size prefix)."),
+          "repaired by fix: commits. Added later: results of a child's parseAfterValidation count as input-derived (opaque leaves and `any` hand the input back) and Object.assign/defineProperty/freeze count as writes to their first argument. Also C03.7: index-signature validators are applied to undeclared keys only. Also C03.8: parseAfterValidation() reads every constructor argument it read on the reviewed tree. Also C03.9: for every value validate() accepts without consulting the wrapped member (null / undefined of an optional field) parseAfterValidation does not delegate to that member; C03.10 (no fixed-size prefix). Also C03.11: no call in validate / parseAfterValidation / reportDecodeError is handed one argument per element of an input-sized array (found and guards fix 6b09ce4: RangeError on > 10^5 invalid items)."),
     note=("Trusted: swc AST, declared Record<..> annotations, the taint model (no inter-procedural flow beyond the listed "
           "helpers). Not decided: re-validation / idempotence of parsed output, leaf preservation through deepmerge."),
     design="DESIGN.md section 3, C03",
@@ -205,7 +205,7 @@ CLAIMED["C12"] = dict(
           "reporter ends in an unconditional error (found: surplus tuple items - fixed; intersections of non-object types - "
           "known finding); pushPath/popPath pair up without an intervening return and the value reported under key k is "
           "input[k]; the union reporter restores ctx.path; error building/rendering never stringifies received values "
-          "outside try/catch. Also C12.5: re-basing an error (spread + new path) leaves its nested errors alone. Also C12.6: reportDecodeError() reads every constructor argument it read on the reviewed tree. Also C12.7 (no fixed-size prefix)."),
+          "outside try/catch. Also C12.5: re-basing an error (spread + new path) leaves its nested errors alone. Also C12.6: reportDecodeError() reads every constructor argument it read on the reviewed tree. Also C12.7 (no fixed-size prefix). Also C12.8 (no hole-skipping walk of the input in reportDecodeError) and C12.9 (= C03.11)."),
     note="Trusted: swc AST; the atom vocabulary of rejection tests. Not decided: union filtering by depth, determinism of rendering.",
     design="DESIGN.md section 3, C12",
 )
@@ -219,7 +219,7 @@ CLAIMED["C01"] = dict(
           "constructor's arity and literal arguments inside the declared literal unions (1 known finding: "
           "TypeofRuntype(\"function\")); template-literal regexes are matched against the whole string (was violated; "
           "fixed); escape_regex covers all 15 syntax characters, backslash first; all 22 concrete runtime classes implement "
-          "all 8 interface methods; typed-array names agree with the 11 ECMAScript globals on both sides. Added later: the intersection smart constructor merges object members only when the stored values are equal (C01.6); the printer never takes a struct-like IR variant apart while ignoring one of its fields, e.g. the index signature of an object shape (C01.7). Also C01.8: scope stacks (pushed-and-popped Vec<(String, _)>) are searched innermost-first. Generic cross-checks: twin agreement (C01.9) and constructor-argument coverage of validate() (C01.10). Also C01.11 (no interface method reads a fixed-size prefix of an array-valued argument) and C01.12 (= C08.6: narrowing of a property declared by two intersection members is symmetric)."),
+          "all 8 interface methods; typed-array names agree with the 11 ECMAScript globals on both sides. Added later: the intersection smart constructor merges object members only when the stored values are equal (C01.6); the printer never takes a struct-like IR variant apart while ignoring one of its fields, e.g. the index signature of an object shape (C01.7). Also C01.8: scope stacks (pushed-and-popped Vec<(String, _)>) are searched innermost-first. Generic cross-checks: twin agreement (C01.9) and constructor-argument coverage of validate() (C01.10). Also C01.11 (no interface method reads a fixed-size prefix of an array-valued argument) and C01.12 (= C08.6: narrowing of a property declared by two intersection members is symmetric). Also C01.13 (validate() never walks the input with a hole-skipping array method) and C01.14 (= C15.10: template chunks are stored cooked and printed escaped; guards fix 054d128)."),
     note=("Trusted: rustc typed HIR, swc AST. The behavioural core of C01 (the validator accepts exactly the members of the "
           "type, for all programs and values) has no sound static argument in reach and is not decided."),
     design="DESIGN.md section 3, C01",
@@ -233,7 +233,7 @@ CLAIMED["C15"] = dict(
           "keyword arm of extract_ts_keyword_type that does not raise a diagnostic or a literal pattern of "
           "maybe_generate_ts_builtin (found `BigInt`; fixed); composite classes print the builtin spellings Array<>, Map<,>, "
           "Set<>, ...Array<>; property keys pass through a quoting step (was violated; fixed); collectDescribeRefs/describe "
-          "test activeRefs/visitedRefs before descending, pair add/delete, and assign definitions under a == null guard. Also C15.6: every return of describeTypeExpr depends on every field the method reads. Also C15.7: the children walk of the reference-counting pass does not depend on context state. Also C15.8: the describe methods read every constructor argument they read on the reviewed tree. Also C15.9: no describe method (or helper it reaches) reads a fixed-size prefix of an array-valued argument; C15.1 judges words glued to template holes as whole words."),
+          "test activeRefs/visitedRefs before descending, pair add/delete, and assign definitions under a == null guard. Also C15.6: every return of describeTypeExpr depends on every field the method reads. Also C15.7: the children walk of the reference-counting pass does not depend on context state. Also C15.8: the describe methods read every constructor argument they read on the reviewed tree. Also C15.9: no describe method (or helper it reaches) reads a fixed-size prefix of an array-valued argument; C15.1 judges words glued to template holes as whole words. Also C15.10: template chunks are read from swc's cooked text and TplLitType::describe escapes backslash, backtick and ${."),
     note="Trusted: rustc typed HIR, swc AST. Not decided: equality (acceptance and hash256) of the second-generation validator.",
     design="DESIGN.md section 3, C15",
 )
